@@ -99,6 +99,10 @@ class World(object):
             p = os.path.join(self.dir, 'cells_%s_int_perm.fcs' % inst)
             fcsgen.write_sample(p, ev[:, ::-1].tolist(), names[::-1], [1024] * 6, bits=16, pne=pne[::-1], pnv=pnv[::-1], extra=extra)
             self.files[(inst, 'int-perm')] = os.path.basename(p)
+            # another recording of the same panel (fewer events): what a re-exported file of the same name may hold
+            p = os.path.join(self.dir, 'cells_%s_int_b.fcs' % inst)
+            fcsgen.write_sample(p, ev[170:].tolist(), names, [1024] * 6, bits=16, pne=pne, pnv=pnv, extra=extra)
+            self.files[(inst, 'int-b')] = os.path.basename(p)
             p = os.path.join(self.dir, 'cells_%s_short.fcs' % inst)
             fcsgen.write_sample(p, ev[:300].tolist(), names, [1024] * 6, bits=16, pne=pne, pnv=pnv, extra=extra)
             self.files[(inst, 'short')] = os.path.basename(p)
